@@ -172,16 +172,40 @@ class SourceModel:
         except KeyError:
             raise AnalysisError(f"module {PKG}.{name} not found")
 
+    def _follow_reexport(self, qual: str, kind: str):
+        """module.name where *name* is imported into *module* from another module of the package (a function or class that
+        was moved and re-exported keeps its public address)"""
+        mod, _, name = qual.partition(".")
+        if mod in self.modules and "." not in name:
+            try:
+                r = self.resolve(mod, name)
+            except AnalysisError:
+                r = None
+            if r and r[0] == kind:
+                return r[1]
+        if mod in self.modules and name.count(".") == 1:           # Class.method of a re-exported class
+            cname, meth = name.split(".")
+            r = self.resolve(mod, cname)
+            if r and r[0] == "class":
+                return f"{r[1]}.{meth}"
+        return None
+
     def func(self, qual: str) -> Func:
         try:
             return self.funcs[qual]
         except KeyError:
+            q2 = self._follow_reexport(qual, "func")
+            if q2 and q2 in self.funcs:
+                return self.funcs[q2]
             raise AnalysisError(f"anchor function {qual} not found")
 
     def cls(self, qual: str) -> ast.ClassDef:
         try:
             return self.classes[qual]
         except KeyError:
+            q2 = self._follow_reexport(qual, "class")
+            if q2 and q2 in self.classes:
+                return self.classes[q2]
             raise AnalysisError(f"anchor class {qual} not found")
 
     def has_func(self, qual: str) -> bool:
